@@ -209,6 +209,25 @@ def control_models():
     return out
 
 
+def finding_models():
+    """one minimal model per known finding of C17 (known_findings.d/C17.json): confirmed through the full pipeline on
+    every run; meta["expect"] = the finding id"""
+    def one(name, rhs, fid, extra_vars=(), extra_eqs=(), externals=()):
+        xml = (_HDR % name + '  <component name="main">\n' + var("a", "2") + var("b", "3") + var("c", "1") + var("y") + "".join(extra_vars) +
+               _MATH % (eqn(ci("y"), rhs) + "".join(extra_eqs)) + "  </component>\n</model>\n")
+        return {"name": name, "xml": xml, "externals": list(externals), "meta": {"family": "finding", "expect": fid}}
+    return [
+        one("finding_product_condition", pw([(ci("a"), ap("times", ci("a"), ci("b")))], ci("c")), "C17-product-in-boolean-context"),
+        one("finding_product_and", ap("and", ap("times", ci("a"), ci("b")), ci("c")), "C17-product-in-boolean-context"),
+        one("finding_fabs_gt", ap("abs", ap("gt", ci("a"), ci("b"))), "C17-fabs-of-comparison"),
+        one("finding_not_lt", ap("lt", ap("not", ci("a")), ci("c")), "C17-not-operand-of-comparison"),
+        one("finding_neq_leq", ap("neq", ci("c"), ap("leq", ci("a"), ci("b"))), "C17-comparison-operand-of-comparison"),
+        one("finding_lt_lt", ap("lt", ap("lt", ci("a"), ci("b")), ci("c")), "C17-comparison-operand-of-comparison"),
+        one("finding_external_sec", ap("sec", ci("a")), "C17-helper-for-externalised-equation", extra_vars=[var("k")],
+            extra_eqs=[eqn(ci("k"), ap("plus", ci("y"), ci("c")))], externals=["main.y"]),
+    ]
+
+
 def invalid_models():
     """(name, xml, externals, expected AnalyserModel type)"""
     def one(name, variables, eqs):
